@@ -30,6 +30,7 @@ func init() {
 			{Name: "random strings", N: Fixed(50000, 5000000), Run: c18Random},
 			{Name: "all strings of <=3 atoms over 12 hostile atoms", Exhaustive: true, N: Fixed(1+12+144+1728, 1+12+144+1728), Run: c18Exhaustive},
 			{Name: "very long lines (around 4 KiB and 64 KiB, and 200 kB) x 4 line shapes", Exhaustive: true, N: Fixed(len(c18LongLens)*4, len(c18LongLens)*4), Run: c18Long},
+			{Name: "every Unicode code point (1 112 064 scalar values in blocks of 1024): alone, after a letter, doubled, and inside a two-line text", Exhaustive: true, N: Fixed(0x110000/1024, 0x110000/1024), Run: c18AllRunes},
 		},
 	})
 }
@@ -56,6 +57,42 @@ func c18Long(c *Ctx, i int, r *gen.R) {
 	c.Case = map[string]interface{}{"string": fmt.Sprintf("(%d bytes, shape %d)", len(s), i/len(c18LongLens))}
 	c18String(c, s)
 	c18Cells(c, s)
+}
+
+// c18AllRunes sweeps one block of 1024 code points: no alphabet is a substitute for the whole repertoire when the
+// claim is "for every string" and the width tables are per code point.
+func c18AllRunes(c *Ctx, i int, r *gen.R) {
+	n := 0
+	for cp := rune(i * 1024); cp < rune((i+1)*1024); cp++ {
+		if cp >= 0xD800 && cp <= 0xDFFF {
+			continue // surrogates are not scalar values; as bytes they are invalid UTF-8, which the other phases cover
+		}
+		if cp == '\n' {
+			continue
+		}
+		n++
+		x := string(cp)
+		for _, s := range []string{x, "a" + x, x + x, "line one\nb" + x + "c"} {
+			c.Case = map[string]interface{}{"string": gen.Q(s), "code_point": fmt.Sprintf("U+%04X", cp)}
+			c18String(c, s)
+			if c.Rec.Stop() {
+				return
+			}
+		}
+		// a cell holding it: width and height agree with its lines
+		s := x + "\n" + x + x
+		cell := tabular.NewCell(s)
+		if h, nl := cell.Height(), len(cell.Lines()); h != nl {
+			c.Rec.Violate("Cell.Height!=len(Lines)", fmt.Sprintf("cell of %q: Height()=%d but len(Lines())=%d", s, h, nl), c.Case)
+			return
+		}
+		if w, want := cell.TerminalCellWidth(), length.LongestLineCells(s); w != want {
+			c.Rec.Violate("Cell.Width!=LongestLineCells", fmt.Sprintf("cell of %q: TerminalCellWidth()=%d but its longest line measures %d", s, w, want), c.Case)
+			return
+		}
+	}
+	c.Rec.Eval(gen.Hash64("allrunes", fmt.Sprint(i)), n > 0)
+	c.Rec.Count("code_points_swept", int64(n))
 }
 
 func c18Random(c *Ctx, i int, r *gen.R) {
